@@ -468,3 +468,79 @@ def engine_tasking(c, rec):
         _check_random(v, d)
     elif not np.array_equal(d, v):
         raise Violation("all_visible", f"all-visible policy through the engine: decision {d.astype(int).tolist()} != visibility {v.astype(int).tolist()} (rewards {r.tolist()})")
+
+
+# ------------------------------------------------------------------------------------------------
+# the whole assess() of a running scenario: the decision stored with a step is judged against the rewards stored with it
+# ------------------------------------------------------------------------------------------------
+def _assess_cases():
+    return st.builds(
+        lambda p, tgt, pr, tau, tau_end, el: {"policy": p, "prio_target": tgt, "priority": pr, "tau": tau, "tau_end": tau_end, "min_el": el},
+        st.sampled_from(POLICIES), st.integers(0, 2), st.sampled_from([0.25, 0.5, 2.0, 5.0, 10.0]), st.sampled_from([0, 60, 120]),
+        st.sampled_from([60, 120, 180, 240]), st.sampled_from([0.0, 0.0, 30.0]))
+
+
+@PROP.clause("engine_assess", strategy=_assess_cases, quick=40, thorough=1200, shards=4)
+def engine_assess(c, rec):
+    """three real scenario steps with a task-priority event: after every assess() the stored decision is feasible/optimal for the stored (priority-scaled) rewards and visibility, and the task rows carry exactly those matrices"""
+    from datetime import datetime, timedelta
+
+    t0 = datetime(2019, 3, 4, 12, 0, 0)
+    dt = 60
+    sens = [kit.ground_sensor(27001 + i, 10.0 + i, 20.0 - i, kind="adv_radar", elevation_mask=[c["min_el"], 90.0] if c["min_el"] else None) for i in range(2)]
+    for s in sens:
+        if s["sensor"].get("elevation_mask") is None:
+            s["sensor"].pop("elevation_mask", None)
+    tgts = [kit.eci_target(17001 + j, kit.circular_state_over(10.0, 20.0, t0, 20000.0 + 300.0 * j, heading_deg=40.0 * j)) for j in range(3)]
+    extra = {"seed": 11} if c["policy"] == "RandomDecision" else None
+    tau_end = max(c["tau_end"], c["tau"] + 60)
+    ev = {"scope": "task_reward_generation", "scope_instance_id": 1, "start_time": kit.iso(t0 + timedelta(seconds=c["tau"])),
+          "end_time": kit.iso(t0 + timedelta(seconds=tau_end)), "event_type": "task_priority", "target_id": 17001 + c["prio_target"],
+          "target_name": f"tgt{17001 + c['prio_target']}", "priority": c["priority"], "is_dynamic": False}
+    cfg = kit.scenario_config(t0, t0 + timedelta(seconds=5 * dt), dt, [kit.engine(1, sens, tgts, decision=c["policy"], decision_extra=extra)], events=[ev])
+    sc = kit.build(cfg)
+    eng = sc.tasking_engines[1]
+    given = {}
+    orig = eng.decision.calculate
+
+    def spy(reward_matrix, visibility_matrix):
+        given["r"] = np.array(reward_matrix, dtype=float)
+        given["v"] = np.array(visibility_matrix, dtype=bool)
+        return orig(reward_matrix, visibility_matrix)
+
+    eng.decision.calculate = spy
+    try:
+        for j in range(1, 4):
+            given.clear()
+            sc.stepForward()
+            r = np.array(eng.reward_matrix, dtype=float)
+            v = np.array(eng.visibility_matrix, dtype=bool)
+            d = np.array(eng.decision_matrix, dtype=bool)
+            if "r" not in given:
+                raise Violation("assess_no_decision", f"step {j}: the engine never asked its decision policy")
+            if not np.array_equal(given["r"], r) or not np.array_equal(given["v"], v):
+                raise Violation("assess_decided_on_other_rewards", f"step {j}: the policy decided on rewards {given['r'].tolist()} / visibility {given['v'].astype(int).tolist()}, but the engine reports rewards {r.tolist()} / visibility {v.astype(int).tolist()} for that step")
+            active = c["tau"] <= j * dt and tau_end > (j - 1) * dt
+            row = c["prio_target"]
+            if active and v[row].any() and np.any(r[row] != 0):
+                rec.label("priority_active_on_visible_target")
+                others = np.delete(np.where(v, r, -np.inf), row, axis=0)
+                if np.any((np.where(v, r, -np.inf)[row] > others.max(axis=0)) != (np.where(v, r / np.where(np.arange(3)[:, None] == row, c["priority"], 1.0), -np.inf)[row] > others.max(axis=0))):
+                    rec.nontrivial([c["policy"], row, c["priority"], j, tuple(v.ravel().tolist())])
+                    rec.label("priority_changes_a_sensor_optimum")
+            if c["policy"] == "MunkresDecision":
+                _check_munkres(r, v, d, rec)
+            elif c["policy"] == "MyopicNaiveGreedyDecision":
+                _check_greedy(r, v, d)
+            elif c["policy"] == "RandomDecision":
+                _check_random(v, d)
+            elif not np.array_equal(d, v):
+                raise Violation("all_visible", f"step {j}: all-visible policy through assess(): decision {d.astype(int).tolist()} != visibility {v.astype(int).tolist()}")
+            from resonaate.physics.time.stardate import datetimeToJulianDate
+
+            for task in eng.getCurrentTasking(datetimeToJulianDate(t0 + timedelta(seconds=j * dt))):
+                ti, si = eng.target_indices[task.target_id], eng.sensor_indices[task.sensor_id]
+                if bool(task.decision) != bool(d[ti, si]) or bool(task.visibility) != bool(v[ti, si]) or float(task.reward) != float(r[ti, si]):
+                    raise Violation("task_row", f"step {j}: task row ({task.sensor_id},{task.target_id}) = (vis {task.visibility}, reward {task.reward}, decision {task.decision}) but the engine's matrices say ({v[ti, si]}, {r[ti, si]}, {d[ti, si]})")
+    finally:
+        eng.decision.calculate = orig
